@@ -143,7 +143,7 @@ func (p *Path) Decode(format string, v string) bool {
 	re = strings.ReplaceAll(re, "%f", "([0-9]{6})")
 	re = strings.ReplaceAll(re, "%z", "(Z|\\+[0-9]{4}|-[0-9]{4})")
 	re = strings.ReplaceAll(re, "%s", "([0-9]{10})")
-	r := regexp.MustCompile(re)
+	r := regexp.MustCompile("^" + re + "$")
 
 	var groupMapping []string
 	cur := format
@@ -238,12 +238,14 @@ func (p *Path) Decode(format string, v string) bool {
 	}
 
 	if unixSec > 0 {
-		p.Start = time.Unix(unixSec, int64(micros)*1000)
+		p.Start = time.Unix(unixSec, int64(micros)*1000).In(loc)
 	} else {
 		p.Start = time.Date(year, month, day, hour, minute, second, micros*1000, loc)
 	}
 
-	return true
+	// accept only names that Encode() could have generated,
+	// in order to discard out-of-range values (i.e. month 13).
+	return p.Encode(format) == v
 }
 
 // Encode encodes a path.
